@@ -98,6 +98,30 @@ fn check_error_contract(spec: &CmdSpec, e: &ErrObs) -> Vec<(String, String)> {
             bad.push(("the error's closing hint names a help subcommand that does not exist".into(), format!("try '{}'", hint)));
         }
     }
+    // "tip: '<sub> --<flag>' exists": the flag must be one of that subcommand
+    if e.kind == "UnknownArgument" {
+        fn subs_named<'a>(c: &'a CmdSpec, n: &str, out: &mut Vec<&'a CmdSpec>) {
+            for s in &c.subs {
+                if s.name == n || s.aliases.iter().chain(s.visible_aliases.iter()).any(|a| a == n) {
+                    out.push(s);
+                }
+                subs_named(s, n, out);
+            }
+        }
+        for line in e.rendered.lines() {
+            let Some(rest) = line.trim().strip_prefix("tip: '") else { continue };
+            let Some(named) = rest.strip_suffix("' exists") else { continue };
+            let Some((sub, flag)) = named.split_once(" --") else { continue };
+            let mut cands = vec![];
+            subs_named(spec, sub, &mut cands);
+            let has = cands.iter().any(|s| flag == "help" || flag == "version" || s.args.iter().any(|a| a.long.iter().chain(a.aliases.iter()).chain(a.visible_aliases.iter()).any(|l| l == flag)));
+            if cands.is_empty() {
+                bad.push(("a suggested subcommand does not exist".into(), format!("tip {:?}", named)));
+            } else if !has {
+                bad.push(("the error points at a flag of a subcommand that does not have it".into(), format!("tip {:?}", named)));
+            }
+        }
+    }
     for (k, v) in &e.context {
         let items: Vec<&str> = v.split('\u{1f}').filter(|s| !s.is_empty()).collect();
         match k.as_str() {
@@ -358,7 +382,7 @@ fn main() {
         let (cv, l) = &blocks[bi];
         let Ok(cmd) = build_valid(&cv.spec) else { return };
         let nested = cv.name.starts_with("nested:");
-        let alpha = if nested { conv::nested_alphabet() } else if cv.name.starts_with("values:") { conv::values_alphabet() } else if cv.name.contains(':') { conv::hyphen_alphabet() } else { conv::alphabet(&cv.spec) };
+        let alpha = if nested { conv::nested_alphabet() } else if cv.name.starts_with("values:") { conv::values_alphabet() } else if cv.name.starts_with("suggest:") { conv::suggest_alphabet() } else if cv.name.contains(':') { conv::hyphen_alphabet() } else { conv::alphabet(&cv.spec) };
         let mut h = Hist::new();
         let mut argv: Vec<Vec<u8>> = vec![];
         let mut idx = 0u64;
